@@ -182,7 +182,11 @@ def main():
                       kind_free_text="stdlib-only Go driver that executes call lists against the real library and projects results to ndjson events")],
         checks=checks,
         not_applicable=[dict(property_id=p, reason=NA.get(p, NOT_YET)) for p in ALL if p not in CLAIMED],
-        notes="Exit codes of bin/check: 0 held (KNOWN-FINDING lines possible), 1 VIOLATION, 2 INCONCLUSIVE (infrastructure/spec error, never a verdict).")
+        notes="Exit codes of bin/check: 0 held (KNOWN-FINDING lines possible), 1 VIOLATION, 2 INCONCLUSIVE (infrastructure/spec error, never a verdict). "
+              "Stages added to the checks after the level texts above were written (DESIGN.md 12.6, 12.10): conformance of the real encoder stages with the encoder models "
+              "(QREnc, DMEnc, AztecHLEnc, AztecSel, PDFTextEnc, PDFDims, Code128Enc) over the models' state spaces through trace specification TraceEnc (C01-C05, C10, C12, C13); "
+              "refused-then-accepted call pairs and a GOMAXPROCS environment stage (1, 3, 7, 128) in every check that reads symbols back (C01-C08, C10-C14); argument-variation, "
+              "misuse-then-plain and other-GOMAXPROCS fresh processes in C15; cold-start classes and a progress-based watchdog in C16. VERIF_SEED selects the generators' seed (default 1).")
     json.dump(m, open(os.path.join(V, "MANIFEST.json"), "w"), indent=1)
 
 NA = {}
